@@ -29,7 +29,7 @@ func startsWord(t string) bool {
 	return c == '_' || c >= '0' && c <= '9' || c >= 'a' && c <= 'z' || c >= 'A' && c <= 'Z'
 }
 
-var comments = []string{"// note", "// 注释", "//", "// a, b { c }", "//// x", "// trailing ; stuff"}
+var comments = []string{"// note", "// 注释", "//", "// a, b { c }", "//// x", "// trailing ; stuff", "// 100% done", "// %s %d", "// $x `tick` \"q\"", "// <tag> &amp; {{.}}", "//\ttab"}
 
 func joinNoisy(toks []string, r *Rng, noise int) string {
 	var b strings.Builder
